@@ -2,7 +2,8 @@ package main
 
 // Engine `registry` (property C17): the name <-> number registries of tags, enumerations and bit masks
 // and every text conversion built on them, compared with the Lean model answering from the GENERATED
-// tables, plus the impl-side oracle of C17 (independent of the model).
+// tables, plus the impl-side oracles of C17 (independent of the model). The comparison with the PINNED
+// registry, the Go-type -> tag maps and the typed values are in registry_pin.go.
 
 import (
 	"bytes"
@@ -28,7 +29,7 @@ import (
 func init() {
 	register(&Engine{
 		Name: "registry",
-		Rule: "EXHAUSTIVE over the live registry (every tag, every value of every enumeration, every flag of every mask, in both directions) x every public producer/consumer (TagString, XML/JSON writers and readers, EnumName/EnumByName, MarshalText/UnmarshalText of every enum and mask Go type, AppendBitmaskString/BitmaskByStr); plus unregistered numbers at the table edges, powers of two, 32-bit boundaries and seeded random ones; plus odd texts derived from every 7th name and a fixed list (empty, case changed, blanks/tabs inside and around, `|`, 0x/0X hex of several widths, decimal with sign/leading zeros/out of range, near-miss names); masks: every single bit 0..31, 0, all-ones, seeded random subsets. distinct = distinct protocol line; nontrivial = line about a registered entry or a non-empty text",
+		Rule: "EXHAUSTIVE over the live registry (every tag, every value of every enumeration, every flag of every mask, in both directions) x every public producer/consumer (TagString, XML/JSON/text writers and XML/JSON readers, EnumName/EnumByName, MarshalText/UnmarshalText of every enum and mask Go type, AppendBitmaskString/BitmaskByStr); EXHAUSTIVE over the pinned registry handed over by the Lean driver (every pinned tag, enumeration value, flag and Go type answered by the public functions as pinned; additions = extension, counted, not a violation); typed values: every enum/mask Go type (found by reflection over the message types) x {own tag, AttributeValue, element tags the library's structures use, another enumeration's tag, a mask tag, an unregistered tag} x {every registered value, edges, random} through Encoder.TagAny (XML, JSON, text) and Decoder.TagAny (XML, JSON), and every enum/mask-valued attribute as a real kmip.Attribute; plus unregistered numbers at the table edges, powers of two, 32-bit boundaries and seeded random ones; plus odd texts derived from every 7th name and a fixed list (empty, case changed, blanks/tabs inside and around, `|`, 0x/0X hex of several widths, decimal with sign/leading zeros/out of range, near-miss names); masks: every single bit 0..31, 0, all-ones, seeded random subsets. distinct = distinct protocol line; nontrivial = line about a registered entry or a non-empty text",
 		Run:  runRegistry,
 	})
 }
